@@ -246,6 +246,36 @@ theorem yield_total (t : Table ν) (c step : Nat) (s : Script)
     · exact h3
     · exact absurd hd h1
 
+/-! ### the default number of cycles -/
+
+/-- **default_cycles_pos**: left at its default, the number of cycles is the number of atoms and never zero -/
+theorem default_cycles_pos (n : Nat) : 0 < defaultCycles none n ∧ (0 < n → defaultCycles none n = n) := by
+  simp only [defaultCycles]
+  omega
+
+/-- an explicit number of cycles is taken as given -/
+theorem default_cycles_given (c n : Nat) : defaultCycles (some c) n = c := rfl
+
+/-- **default_step_attempts_a_move**: with the default number of cycles, a step in which some move is due attempts at
+    least one — for every system, the empty box of a grand-canonical run included -/
+theorem default_step_attempts_a_move (t : Table ν) (n step : Nat) (s : Script) (names : List ν) (s' : Script)
+    (h : yieldMoves t (defaultCycles none n) step s = .ok (names, s')) (hd : dueList t step ≠ []) :
+    names ≠ [] := by
+  have hl := (yield_length t _ step s names s' h).2 hd
+  have hp := (default_cycles_pos n).1
+  intro hn
+  rw [hn] at hl
+  simp at hl
+  omega
+
+/-- pinned (before the repair): starting from the empty box nothing is ever attempted, whatever is registered -/
+theorem default_cycles_pinned_empty_box (t : Table ν) (step : Nat) (s : Script) (names : List ν) (s' : Script)
+    (h : yieldMoves t (defaultCyclesPinned none 0) step s = .ok (names, s')) : names = [] := by
+  rcases Classical.em (dueList t step = []) with hd | hd
+  · exact (yield_length t _ step s names s' h).1 hd
+  · have hl := (yield_length t _ step s names s' h).2 hd
+    simpa [defaultCyclesPinned] using hl
+
 /-- **weights_of_any_numeric_type**: with the array built as floats (the repaired line) the normalisation goes through
     whatever way the weights were written (`probability=1`, `1.0`, mixed) -/
 theorem weights_of_any_numeric_type (ws : List PyNum) : normaliseOK true ws = true := rfl
